@@ -52,6 +52,8 @@ func (s *sess) files() map[string]*dbfile {
 }
 
 func (s *sess) endCase() {
+	stopDeepServers()
+	restoreClock()
 	for _, f := range s.files() {
 		if f.db != nil {
 			f.db.Close()
